@@ -256,4 +256,31 @@ def seedingOk (binds : List SeedBind) (calls : List SeedCall) : Bool :=
   calls.all (fun c => binds.all fun b => b.target != "self.seed" || decide (b.line < c.line)) &&
   calls.any (fun c => c.source == .numpyGlobal) && calls.any (fun c => c.source == .torchGlobal)
 
+
+/-! ## 5. order of seeding and drawing in the constructor chain -/
+
+/-- one call executed by `FlowSampler(...)` for a new run (constructors expanded in place, in execution order) -/
+structure CallStep where
+  idx : Nat
+  file : String
+  func : String
+  line : Nat
+  call : String
+  draws : Bool
+  seeds : Bool
+deriving DecidableEq, Repr
+
+/-- Calls that draw random numbers BEFORE `configure_random_seed` and are admitted because what they draw is discarded:
+`Model.verify_model` draws test points to check the user's prior / likelihood, keeps none of them and stores nothing
+that depends on them (that the results do not depend on the generator state before seeding is what the digest runs
+with a different scrambled ambient state per run observe). By (file, function, call text). -/
+def preSeedDiscarded : List (String × String × String) := [
+  ("nessai/samplers/base.py", "BaseNestedSampler.__init__", "model.verify_model")
+]
+
+/-- the chain seeds, exactly once, and every drawing call before the seeding step is an admitted discarded one -/
+def chainSeedsFirst (steps : List CallStep) : Bool :=
+  (steps.filter (·.seeds)).length == 1 &&
+  (steps.takeWhile (fun s => !s.seeds)).all fun s => !s.draws || preSeedDiscarded.contains (s.file, s.func, s.call)
+
 end NessaiVerif.Tables
